@@ -486,6 +486,9 @@ func SaveAutofixChanges(lines *Lines) (autofixed bool) {
 		if closeErr := tmpFile.Close(); err == nil {
 			err = closeErr
 		}
+		if st, statErr := filename.Stat(); err == nil && statErr == nil {
+			err = tmpName.Chmod(st.Mode().Perm())
+		}
 		if err != nil {
 			G.Logger.TechErrorf(tmpName, "Cannot write: %s", err)
 			_ = os.Remove(tmpName.String())
